@@ -5,6 +5,7 @@ import ExponaxModel.Proofs.DFT
 import ExponaxModel.Proofs.InterpExact
 import ExponaxModel.Proofs.InterpQuery
 import ExponaxModel.Proofs.SpectralOpsEq
+import ExponaxModel.Proofs.SmallGapsInterp
 /-
 C15 — Fourier interpolation and resolution changes.
 Index part of `map_between_resolutions`: the block copy preserves wavenumbers (all parity
@@ -178,6 +179,43 @@ theorem C15_generated_interpolator (D N C : ℕ) (hD : 1 ≤ D) (hN : 0 < N) (L 
     Gen.SpectralOps.FourierInterpolator_call D N C L "ij" state x =
       Transform.tab C (fun ch => Interp.interpolate D N (2 * Real.pi / L) (state.getD ch #[]) x) :=
   FourierInterpolator_call_eq D N C hD hN L state x
+
+
+
+/-! ### there-and-back in EVERY dimension: for a real state band-limited below both Nyquist wavenumbers, mapping to another
+resolution and back is the identity (both oddball options); from an odd grid upwards for every real state; real-valuedness is
+needed (`irfftn` discards imaginary parts — counterexample) -/
+
+open Exponax.SmallGaps in
+theorem C15_round_trip_nd :
+    ∀ (D Nold Nnew : ℕ),
+      0 < D →
+        0 < Nold →
+          0 < Nnew →
+            ∀ (ob ob' : Bool) (u : Array ℂ),
+              u.size = Nold ^ D →
+                (∀ j < Nold ^ D, (u.getD j 0).im = 0) →
+                  Interp.BandLimitedN D Nold (min Nold Nnew) u →
+                    Interp.mapBetween D Nnew Nold ob' (Interp.mapBetween D Nold Nnew ob u) = u :=
+  @Exponax.SmallGaps.mapBetween_round_trip
+
+open Exponax.SmallGaps in
+theorem C15_round_trip_from_odd_grid :
+    ∀ (D Nold Nnew : ℕ),
+      0 < D →
+        Nold % 2 = 1 →
+          Nold ≤ Nnew →
+            ∀ (ob ob' : Bool) (u : Array ℂ),
+              u.size = Nold ^ D →
+                (∀ j < Nold ^ D, (u.getD j 0).im = 0) →
+                  Interp.mapBetween D Nnew Nold ob' (Interp.mapBetween D Nold Nnew ob u) = u :=
+  @Exponax.SmallGaps.mapBetween_round_trip_upsample_odd
+
+open Exponax.SmallGaps in
+theorem C15_round_trip_needs_real_state :
+    ∀ (ob ob' : Bool),
+      Interp.mapBetween 1 2 1 ob' (Interp.mapBetween 1 1 2 ob #[Complex.I]) ≠ #[Complex.I] :=
+  @Exponax.SmallGaps.mapBetween_round_trip_fails_nonreal
 
 
 end Exponax
